@@ -2,7 +2,7 @@
    sym is any symbol type with a decidable equality (the check instantiates it with code points, N). *)
 From Coq Require Import List Arith NArith Bool Lia Sorting.Permutation.
 Import ListNotations.
-From GB Require Import Ids.
+From GB Require Import Ids CommentLive.
 
 (* a complete combined id has 64 symbols: the first 50 of the primary id and the first 14 of the secondary *)
 Theorem C13_combine_lengths (sym : Type) (p s : list sym) : length p = 64 -> length s = 64 ->
@@ -84,6 +84,44 @@ Theorem C13_comment_sound_complete (sym : Type) (eqb : sym -> sym -> bool) (eqb_
      forall b, In b l <-> exists s, In (b, s) (all_comments sym pop) /\ cmatch sym pfx (b, s)).
 Proof. exact (comment_sound_complete sym eqb eqb_spec pop pfx). Qed.
 Print Assumptions C13_comment_sound_complete.
+
+(* ---- the object handed out is the loaded instance of the entity (an evicted instance is locked for ever) ---- *)
+
+(* SubCache.Resolve (and so ResolvePrefix, select.Resolve) hands out the most recently used loaded instance of the entity
+   asked for: for every bound on the number of loaded entities (0 included), whatever is loaded or needs a commit *)
+Theorem C13_resolve_handle_live (id : Type) (id_eqb : id -> id -> bool) (id_eqb_spec : forall a b, id_eqb a b = true <-> a = b)
+  (dirty : id -> bool) (cap : nat) (e : id) (c : lcache id) :
+  live id (fst (resolve id id_eqb dirty cap e c)) (snd (resolve id id_eqb dirty cap e c)) /\
+  fst (snd (resolve id id_eqb dirty cap e c)) = e.
+Proof. exact (resolve_live id id_eqb id_eqb_spec dirty cap e c). Qed.
+Print Assumptions C13_resolve_handle_live.
+
+(* ResolveComment resolving the matching bug once AFTER the scan of the candidates hands out a live instance: every bound,
+   every visiting order of the candidates, every cache content *)
+Theorem C13_comment_handle_live (id : Type) (id_eqb : id -> id -> bool) (id_eqb_spec : forall a b, id_eqb a b = true <-> a = b)
+  (dirty : id -> bool) (cap : nat) (cands : list (id * nat)) (c : lcache id) (h : inst id) :
+  snd (resolve_comment_again id id_eqb dirty cap cands c) = HFound id h ->
+  live id (fst (resolve_comment_again id id_eqb dirty cap cands c)) h.
+Proof. exact (comment_handle_live id id_eqb id_eqb_spec dirty cap cands c h). Qed.
+Print Assumptions C13_comment_handle_live.
+
+(* ... and names the same bug / the same multiple-match list / "no such comment" as the scan that keeps the instance *)
+Theorem C13_comment_same_answer (id : Type) (id_eqb : id -> id -> bool) (id_eqb_spec : forall a b, id_eqb a b = true <-> a = b)
+  (dirty : id -> bool) (cap : nat) (cands : list (id * nat)) (c : lcache id) :
+  answer id (snd (resolve_comment_again id id_eqb dirty cap cands c)) = answer id (snd (resolve_comment_kept id id_eqb dirty cap cands c)).
+Proof. exact (comment_same_answer id id_eqb id_eqb_spec dirty cap cands c). Qed.
+Print Assumptions C13_comment_same_answer.
+
+(* ResolveComment keeping the instance of the matching bug while it resolves the other candidates (the code as found before
+   fixes/C13-resolvecomment-evicted-bug.patch): two candidate bugs and room for one loaded bug, the instance handed out has
+   been evicted; the repaired scan answers the same bug with a live instance *)
+Theorem C13_comment_kept_instance_refuted : exists cap cands c h,
+  snd (resolve_comment_kept nat Nat.eqb nd cap cands c) = HFound nat h /\
+  ~ live nat (fst (resolve_comment_kept nat Nat.eqb nd cap cands c)) h /\
+  exists h', snd (resolve_comment_again nat Nat.eqb nd cap cands c) = HFound nat h' /\ fst h' = fst h /\
+             live nat (fst (resolve_comment_again nat Nat.eqb nd cap cands c)) h'.
+Proof. exact comment_kept_refuted. Qed.
+Print Assumptions C13_comment_kept_instance_refuted.
 
 (* ---- the model is the documented format; the hypotheses are satisfiable ---- *)
 
